@@ -76,6 +76,10 @@ def run_one(stratum, seed, index):
         return gen.template_run(seed, index)
     if stratum == "inject":
         return gen.inject_template_run(seed, index)
+    if stratum == "injectall":
+        # every fault point: (source, query, seam) x call position 1..INJECT_ALL_CAP
+        base, k = divmod(index, gen.INJECT_ALL_CAP)
+        return gen.inject_template_run(seed, base * len(gen.INJECT_NTH), stratum="injectall", nth_override=k + 1)
     if stratum.startswith("sweep"):
         return gen.sweep_run(int(stratum[5:]), index)
     raise ValueError(stratum)
@@ -571,12 +575,21 @@ def check_main(tier, seed, args):
     return 0
 
 
+def _gcd(a, b):
+    while b:
+        a, b = b, a % b
+    return a
+
+
 def thorough_batch(pool, seed, args, batch):
     from . import gen
 
-    budget = args.budget if args.budget is not None else float(os.environ.get("VERIF_BUDGET_S", "2400"))
+    budget = args.budget if args.budget is not None else float(os.environ.get("VERIF_BUDGET_S", "3600"))
     t0 = time.time()
     tasks = list(chunks("template", seed, range(gen.N_TEMPLATES), want_fp=True))
+    tasks += list(chunks("inject", seed, range(gen.N_INJECT_TEMPLATES)))
+    n_all = (gen.N_INJECT_TEMPLATES // len(gen.INJECT_NTH)) * gen.INJECT_ALL_CAP
+    tasks += list(chunks("injectall", seed, range(n_all), size=CHUNK * 4))
     run_tasks(pool, tasks, batch, max_violating_chunks=60)
     # length<=4 sweep (a supplement sampled without replacement; see DESIGN 3.6)
     sweep_info = {"alphabet": gen.SWEEP_ALPHABET, "max_len": 4, "sources": len(gen.SWEEP_SOURCES), "runs": 0,
@@ -586,11 +599,19 @@ def thorough_batch(pool, seed, args, batch):
     before = batch.runs
 
     def sweep_tasks():
-        n = gen.sweep_count(4)
-        # interleave the three sources, shortest sequences first
-        for start in range(0, n, CHUNK * 4):
+        n3, n4 = gen.sweep_count(3), gen.sweep_count(4)
+        # every sequence of length <= 3 first (complete), then the length-4
+        # sequences in a seeded stride order (sampled without replacement,
+        # spread over the whole index range if the budget ends early)
+        order = list(range(n3))
+        m = n4 - n3
+        stride = 7919 + 2 * (seed % 1000)
+        while m % stride == 0 or _gcd(stride, m) != 1:
+            stride += 1
+        order += [n3 + (j * stride) % m for j in range(m)]
+        for start in range(0, len(order), CHUNK * 4):
             for si in range(len(gen.SWEEP_SOURCES)):
-                yield ("sweep%d" % si, seed, list(range(start, min(n, start + CHUNK * 4))), False)
+                yield ("sweep%d" % si, seed, order[start : start + CHUNK * 4], False)
 
     if len(batch.violations) < 60:
         run_tasks(pool, sweep_tasks(), batch, deadline=deadline, max_violating_chunks=60)
